@@ -1470,7 +1470,13 @@ def int_canon(e, ints=frozenset()):
             past = ints | frozenset(_is_int_test(x[2]) for x in e[1][1] if x[0] == 'un' and x[1] == 'not' and _is_int_test(x[2]) is not None)
         elif e[1][0] == 'un' and e[1][1] == 'not' and _is_int_test(e[1][2]) is not None:
             past = ints | {_is_int_test(e[1][2])}
-        return ('phi', test, int_canon(e[2], ints), int_canon(e[3], past))
+        # ... and the then branch only when it was true: `E if isinstance(x, int) else F` evaluates E for integers only
+        then = ints
+        if _is_int_test(e[1]) is not None:
+            then = ints | {_is_int_test(e[1])}
+        elif e[1][0] == 'and':
+            then = ints | frozenset(_is_int_test(x) for x in e[1][1] if _is_int_test(x) is not None)
+        return ('phi', test, int_canon(e[2], then), int_canon(e[3], past))
     if e[0] == 'cmp' and e[1] == '<' and e[2] in ints and e[3][0] == 'const' and isinstance(e[3][1], int) and not isinstance(e[3][1], bool):
         return ('un', 'not', ('cmp', '<', ('const', e[3][1] - 1), e[2]))
     return e
